@@ -21,6 +21,12 @@ def main():
     for op in spec["ops"]:
         oid = op["id"]
         try:
+            if op.get("pre_write"):
+                # "@RW@" = a directory private to this interpreter: the same path spelling for every operation of this history
+                op = json.loads(json.dumps(op).replace("@RW@", work))
+            for wp, hx in (op.get("pre_write") or {}).items():
+                with open(wp, "wb") as fh:          # the operation's own input files, (re)written just before it runs
+                    fh.write(bytes.fromhex(hx))
             if op["kind"] == "create":
                 from suit_generator.input_output import InputOutputMixin
                 if op.get("cwd"):
@@ -56,6 +62,15 @@ def main():
                 o = os.path.join(work, f"{oid}.bin")
                 c.close_and_save_cache(o)
                 out[oid] = open(o, "rb").read().hex()
+            elif op["kind"] == "cache_env":
+                from suit_generator import cmd_cache_create
+                dd = os.path.join(work, f"ce{oid}")
+                os.makedirs(dd, exist_ok=True)
+                inp, oc, oe = os.path.join(dd, "in.suit"), os.path.join(dd, "cache.bin"), os.path.join(dd, "out.suit")
+                open(inp, "wb").write(bytes.fromhex(op["envelope"]))
+                cmd_cache_create.main(cache_create_subcommand="from_envelope", eb_size=op["eb"], input_envelope=inp, output_envelope=oe, output_file=oc,
+                                      omit_payload_regex=op.get("omit"), dependency_regex=op.get("dep"))
+                out[oid] = {"cache": open(oc, "rb").read().hex(), "envelope": open(oe, "rb").read().hex()}
             elif op["kind"] == "boot":
                 from suit_generator.cmd_image import ImageCreator
                 d = os.path.join(work, f"boot{oid}")
